@@ -454,7 +454,7 @@ def check_percolation(ctx):
         mk = (mask or '').replace(' ', '')
         ok = None
         if mask is not None:
-            if reps in (f'tuple(1+{mk})', f'1+{mk}', f'tuple({mk}+1)', f'{mk}+1'):
+            if reps in (f'tuple(1+{mk})', f'1+{mk}', f'tuple({mk}+1)', f'{mk}+1', f'np.where({mk},2,1)', f'tuple(np.where({mk},2,1))'):
                 ok = True
             elif isinstance(rt, ast.Call) and norm_text(rt.func) == 'tuple' and rt.args and isinstance(rt.args[0], (ast.GeneratorExp, ast.ListComp)):
                 g = rt.args[0]
